@@ -392,7 +392,8 @@ theorem linear_kernel_homogeneous (w : Nat → Nat → Nat → α) :
     updated exactly once. -/
 theorem mu_superposition (nRx nTx : Nat) (hR : 0 < nRx) (hT : 0 < nTx) (Lk L' : Nat → Su α) (sw : Bool)
     (hsw : (Lk 0).tdl.switched = sw)
-    (x : List (List (List α))) (send : Su α → List (List α) → Except PyErr (Su α × List (List α)))
+    (x : List (List (List α))) (hx : x.length = (if sw then nRx else nTx))
+    (send : Su α → List (List α) → Except PyErr (Su α × List (List α)))
     (R len : Nat) (F : Nat → Nat → Nat → α)
     (hsend : ∀ idx, idx < nRx * nTx → ∃ s, x[if sw then idx / nTx else idx % nTx]? = some s ∧
         send (Lk idx) s = .ok (L' idx, tab R (fun r => tab len (F idx r)))) :
@@ -400,7 +401,7 @@ theorem mu_superposition (nRx nTx : Nat) (hR : 0 < nRx) (hT : 0 < nTx) (Lk L' : 
       = .ok ({ nRx := nRx, nTx := nTx, links := tab (nRx * nTx) L' },
              tab (if sw then nTx else nRx) (fun j => tab R (fun r => tab len (fun m =>
                ((List.range (if sw then nRx else nTx)).map (fun a => F (muLink sw nTx j a) r m)).sum)))) :=
-  mu_transmit_tables nRx nTx hR hT Lk L' sw hsw x send R len F hsend
+  mu_transmit_tables nRx nTx hR hT Lk L' sw hsw x hx send R len F hsend
 
 /-- the multiuser time-domain transmission of SISO links, fully instantiated: receiver `j`
     gets `Σ_t conv(x_t, response reported by link (j,t))`, including each link's path loss. -/
@@ -416,7 +417,7 @@ theorem mu_corrupt_siso (proc : Proc α) (nRx nTx : Nat) (hR : 0 < nRx) (hT : 0 
   refine ⟨fun l => { Lk l with tdl := (Lk l).tdl.afterTx proc n },
           fun l => (Lk l).report (genIR proc (Lk l).tdl (Lk l).tdl.pos n), ?_, ?_⟩
   · have := mu_transmit_tables nRx nTx hR hT Lk (fun l => { Lk l with tdl := (Lk l).tdl.afterTx proc n }) false
-      (hsw 0) (tab nTx (fun t => [tab n (xf t)])) (fun su s => su.corrupt proc s) 1 (n + mem)
+      (hsw 0) (tab nTx (fun t => [tab n (xf t)])) (by simp [tab_length]) (fun su s => su.corrupt proc s) 1 (n + mem)
       (fun idx _ m => convAtSiso ((Lk idx).report (genIR proc (Lk idx).tdl (Lk idx).tdl.pos n)) n (xf (idx % nTx)) m)
       (by
         intro idx _
@@ -464,7 +465,7 @@ theorem mu_corrupt_mimo (proc : Proc α) (nRx nTx : Nat) (hR : 0 < nRx) (hT : 0 
           fun l => (Lk l).report (genIR proc (Lk l).tdl (Lk l).tdl.pos n), ?_, ?_⟩
   · have := mu_transmit_tables nRx nTx hR hT Lk (fun l => { Lk l with tdl := (Lk l).tdl.afterTx proc n }) sw
       (hsw 0) (tab (if sw then nRx else nTx) (fun a => tab (if sw then nr else nt) (fun i => tab n (xf a i))))
-      (fun su s => su.corrupt proc s) (if sw then nt else nr) (n + mem)
+      (by simp [tab_length]) (fun su s => su.corrupt proc s) (if sw then nt else nr) (n + mem)
       (fun idx r m => convAt ((Lk idx).report (genIR proc (Lk idx).tdl (Lk idx).tdl.pos n)) sw
         (if sw then nr else nt) n (xf (if sw then idx / nTx else idx % nTx)) r m)
       (by
@@ -543,7 +544,7 @@ theorem mu_freq_siso (proc : Proc α) (fftK : Fft α) (nRx nTx : Nat) (hR : 0 < 
   refine ⟨fun l => { Lk l with tdl := (Lk l).tdl.afterFx fft nb (lastOf l) },
           fun l => (Lk l).report (lastOf l), ?_, ?_⟩
   · have := mu_transmit_tables nRx nTx hR hT Lk (fun l => { Lk l with tdl := (Lk l).tdl.afterFx fft nb (lastOf l) }) sw
-      (hsw 0) (tab (if sw then nRx else nTx) (fun a => [tab n (xf a)]))
+      (hsw 0) (tab (if sw then nRx else nTx) (fun a => [tab n (xf a)])) (by simp [tab_length])
       (fun su s => su.corruptFreq proc fftK s fft sel) 1 n
       (fun idx _ m => freqAtSisoFlat fftK ((Lk idx).report (lastOf idx)) fft ps (xf (srcOf idx)) m)
       (by
@@ -663,16 +664,70 @@ theorem history_steps (proc : Proc α) (fftK : Fft α) (ops : List (SuOp α)) (c
       ck.step proc fftK op = .ok (ck', o) ∧ outs[k]? = some o :=
   su_run_steps proc fftK ops c0 cf outs h
 
-/-- HISTORY clause: over any number of consecutive operations the profile, antenna set-up and
+/-- HISTORY clause: over any number of consecutive operations (incl. `set_num_antennas` and
+    user calls of `generate_impulse_response`) the profile and
     generator are unchanged and the fading position is the start position plus what every
     earlier transmission consumed (`n` per time-domain transmission, `nb·stride` per
     frequency-domain one): the samples of the `j`-th transmission are the ones at the absolute
     positions this counter gives (`corrupt_uses_samples`, `freq_uses_sample`). -/
 theorem history_position (proc : Proc α) (fftK : Fft α) (ops : List (SuOp α)) (c0 cf : Su α) (outs : List (SuOut α))
     (h : Su.run proc fftK c0 ops = .ok (cf, outs)) :
-    cf.tdl.taps = c0.tdl.taps ∧ cf.tdl.ant = c0.tdl.ant ∧ cf.tdl.jakes = c0.tdl.jakes ∧ cf.tdl.link = c0.tdl.link ∧
+    cf.tdl.taps = c0.tdl.taps ∧ cf.tdl.jakes = c0.tdl.jakes ∧ cf.tdl.link = c0.tdl.link ∧
     cf.tdl.pos = c0.tdl.pos + (ops.map (SuOp.advance c0.tdl.jakes)).sum :=
   su_run_state proc fftK ops c0 cf outs h
+
+/-! ## robustness: rejected calls, degenerate path loss, long-lived objects -/
+
+/-- R4 (rejected calls): in the model a call that raises returns the object exactly as it was —
+    this is what the correspondence compares the real objects with: after every rejected call
+    the history goes on and all later outputs / reported responses must still agree. -/
+theorem rejected_call_leaves_state (proc : Proc α) (fftK : Fft α) (c : Su α) (op : SuOp α) (e : PyErr)
+    (h : c.step proc fftK op = .error e) : c.stepR proc fftK op = (c, .error e) :=
+  su_stepR_rejected proc fftK c op e h
+
+/-- R4: a history containing rejected calls ends in the same state as the history from which
+    the rejected calls are removed (a fresh object that never saw them) -/
+theorem history_rejected_calls_removable (proc : Proc α) (fftK : Fft α) (ops : List (SuOp α)) (c : Su α) :
+    (Su.runR proc fftK c ops).1
+      = (Su.runR proc fftK c (ops.zip (Su.runR proc fftK c ops).2 |>.filterMap
+          (fun p => match p.2 with | .ok _ => some p.1 | .error _ => none))).1 :=
+  su_runR_filter proc fftK ops c
+
+/-- R4: which transmissions are rejected, and that the guards come first: a signal whose number
+    of rows is not the number of transmitting antennas is a `ValueError` in both domains, and an
+    unacceptable frequency-domain geometry (zero slice step, index outside the axis, empty
+    selection, length not a multiple of the block size, no block) is reported with the error of
+    `freqPlan` — in every case nothing has been generated (`rejected_call_leaves_state`). -/
+theorem rejected_transmissions (proc : Proc α) (fftK : Fft α) (c : Tdl α) (x : List (List α)) (fft : Nat) (sel : Sel) :
+    (c.signalOk x = false →
+      c.corrupt proc x = .error .ValueError ∧ c.corruptFreq proc fftK x fft sel = .error .ValueError) ∧
+    (∀ e, c.signalOk x = true → freqPlan sel fft (numSymbols x) = .error e →
+      c.corruptFreq proc fftK x fft sel = .error e) := by
+  constructor
+  · intro h
+    constructor
+    · simp [Tdl.corrupt, h, bind, Except.bind, throw, throwThe, MonadExceptOf.throw]
+    · simp [Tdl.corruptFreq, h, bind, Except.bind, throw, throwThe, MonadExceptOf.throw]
+  · intro e h hp
+    simp [Tdl.corruptFreq, h, hp, bind, Except.bind]
+
+/-- R5 (degenerate path loss): a path loss of exactly 0 (`√0 = 0`) is a path loss like any other —
+    the output is scaled to zero and so is the reported response; it is *not* "no path loss". -/
+theorem pathloss_zero (c : Su α) (hpl : c.pl = some 0) (y : List (List α)) (ir : IR α) :
+    c.applyPl y = y.map (fun row => row.map (fun _ => 0)) ∧
+    (c.report ir).vals = ir.vals.map (fun _ _ _ _ => 0) ∧ (c.report ir).n = ir.n := by
+  refine ⟨?_, ?_, Su.report_n c ir⟩
+  · simp [Su.applyPl, hpl, scaleRows]
+  · simp [Su.report, hpl, IR.scale]
+
+/-- R7 (long-lived objects): what a transmission does depends only on the current configuration
+    (profile, antennas, direction, generator and its position) — not on the response left behind by
+    earlier calls; so after any history the object acts like a freshly built one in that configuration. -/
+theorem transmission_ignores_old_response (proc : Proc α) (fftK : Fft α) (c : Tdl α) (l : Option (IR α))
+    (x : List (List α)) (fft : Nat) (sel : Sel) :
+    ({ c with last := l } : Tdl α).corrupt proc x = c.corrupt proc x ∧
+    ({ c with last := l } : Tdl α).corruptFreq proc fftK x fft sel = c.corruptFreq proc fftK x fft sel :=
+  ⟨rfl, corruptFreq_ignores_last proc fftK c l x fft sel⟩
 
 /-- a two-transmission history, end to end on concrete Gaussian-free data (α = ℤ): both
     transmissions succeed and the second one starts where the first one stopped -/
